@@ -209,6 +209,23 @@ def check_sums(case):
         eq(cls, other @ both,
            total([other @ x for x in terms], other.dom @ dom,
                  other.cod @ cod), "tensor-distributes-right")
+    if cls != "cat":
+        # tensor of several factors at once, a sum among them (first, in the
+        # middle, last): same as tensoring them one after the other
+        for what, lhs, rhs in (
+                ("first", both.tensor(other, pre), (both @ other) @ pre),
+                ("first-parallel", both.tensor(other, other),
+                 (both @ other) @ other),
+                ("middle", other.tensor(both, pre, other),
+                 ((other @ both) @ pre) @ other),
+                ("last", other.tensor(pre, both), (other @ pre) @ both),
+                ("from-unit", other.id(other.dom[:0]).tensor(
+                    both, other, other), (both @ other) @ other),
+                ("only", both.tensor(), both)):
+            eq(cls, lhs, rhs, "tensor-variadic-with-sum:" + what)
+        eq(cls, both.tensor(other, other), total(
+            [(x @ other) @ other for x in terms], dom @ other.dom @ other.dom,
+            cod @ other.cod @ other.cod), "tensor-variadic-with-sum:terms")
     # the empty sum (zero) absorbs composition and tensor, with the types of
     # the composite: plain diagram or one-term sum on the other side
     eq(cls, pre >> zero, total([], pre.dom, cod), "diagram-then-zero")
